@@ -227,23 +227,45 @@ def check(run):
     # ---- Taylor propagator coefficients
     fn3 = "TaylorExpansion.__init__"
     init, _ = extract(REPO, REL, "TaylorExpansion.__init__", extra_globals={"factorial": lambda i: Fraction(math.factorial(int(i)))})
-    for order_ in range(0, 9):
+    # (a) for every order at once: contract on the real __init__ (pyvc); `factorial` is the uninterpreted spec function k! (math.factorial trusted)
+    try:
+        from vk.pyvc import run as R
+        from vk.pyvc.engine import Contract
+        tc = Contract("TaylorExpansion.__init__", {"self": "rec:TaylorExpansion", "order": "int"}, requires=["order >= 0"],
+                      records={"TaylorExpansion": {"order": "int", "coeff": "list[real]"}}, consts=["np"], modifies=["self"],
+                      ensures=[("order_stored", "self.order == order"),
+                               ("one_coefficient_per_power", "len(self.coeff) == order + 1"),
+                               ("coefficient_is_reciprocal_factorial", "all(self.coeff[k] == 1.0 / factorial(k) for k in range(order + 1))")],
+                      notes="for all orders; math.factorial is the spec function (trusted), np.array(list) keeps the entries (float rounding of each entry is the "
+                            "bounded link clause below)")
+        tc.ufuncs = {"factorial": (("int",), "real")}
+        R.verify(run, REL, tc, fingerprint=None)
+    except Exception as e:
+        run.oblig("extract:TaylorExpansion.__init__", fn3, "A(pyvc)", "undecided", detail=repr(e)[:300])
+    # (b) ground instances: exact execution (orders 0..12) and the float object actually built (orders up to 64 quick / 170 thorough, where 1/k! leaves
+    #     the range in which an int64 or float intermediate could still be exact)
+    top = 170 if run.tier == "thorough" else 64
+    for order_ in range(0, top + 1):
+        if order_ > 12 and order_ % 4 and order_ != top:
+            continue
         o = SimpleNamespace()
         try:
             init(o, order_)
             ok = o.order == order_ and len(o.coeff) == order_ + 1 and all(Fraction(o.coeff[k]) == Fraction(1, math.factorial(k)) for k in range(order_ + 1))
         except Exception as e:
             run.oblig(f"post:TaylorExpansion:coeff:{order_}", fn3, "A(exact-exec)", "undecided", detail=repr(e))
-            continue
-        run.oblig(f"post:TaylorExpansion:coeff:{order_}", fn3, "A(exact-exec)", "discharged" if ok else "violated", "fractions")
-        if not ok:
+            ok = None
+        if ok is not None:
+            run.oblig(f"post:TaylorExpansion:coeff:{order_}", fn3, "A(exact-exec)", "discharged" if ok else "violated", "fractions")
+        if ok is False:
             run.violation(f"post:TaylorExpansion:coeff:{order_}", fn3, f"TaylorExpansion({order_}).coeff != 1/k!", fields={"order": order_},
                           replay={"order": order_, "coeff": [str(x) for x in o.coeff]}, engine="A(exact-exec)")
         try:
             from renormalizer.utils.rk import TaylorExpansion
             te = TaylorExpansion(order_)
-            okf = all(abs(float(te.coeff[k]) - 1.0 / math.factorial(k)) <= 2 ** -52 / math.factorial(k) for k in range(order_ + 1))
-            run.oblig(f"link:TaylorExpansion:float:{order_}", fn3, "A(exact-exec)", "discharged" if okf else "violated", "closed check")
+            okf = len(te.coeff) == order_ + 1 and all(abs(Fraction(float(te.coeff[k])) - Fraction(1, math.factorial(k))) <= Fraction(1, 2 ** 51 * math.factorial(k))
+                                                       for k in range(order_ + 1))
+            run.oblig(f"link:TaylorExpansion:float:{order_}", fn3, "B(bounded)", "discharged" if okf else "violated", "closed check")
             if not okf:
                 run.violation(f"link:TaylorExpansion:float:{order_}", fn3, "runtime TaylorExpansion.coeff differs from 1/k!", fields={"order": order_},
                               replay={"order": order_, "coeff": [float(x) for x in te.coeff]})
